@@ -169,8 +169,11 @@ def run(args):
     rep = C.Report("C17")
     thorough = C.tier() == "thorough"
     rnd = random.Random(C.seed())
-    rep.cov["rule"] = ("(M) HmsCores model checked (fixed protocol: safety + liveness; original protocol refuted); "
-                       "(B) programs spawning 1..8 cores that read/write globals and print run free under "
+    rep.cov["rule"] = ("(M) HmsCores model checked (fixed protocol: safety + liveness, also with joins of threads and with "
+                       "WaitNonConsuming beside Wait; original protocol and original watcher refuted); (A) schedules chosen by TLC "
+                       "(with and without joins and cancellation) replayed with the hooks as gates; "
+                       "(B) programs spawning 1..8 cores that read/write globals and print, programs which join their threads (in "
+                       "another order, twice, never, nested, after a failure) and the same watched by 1-2 WaitNonConsuming goroutines run free under "
                        "GOMAXPROCS in {1,2,4,16} with seeded yields in the hooks, each execution's event trace validated "
                        "by TLC against TraceCores with all HmsCores invariants; the same programs under the race "
                        "detector; non-trivial = distinct (program, procs, jitter seed) executions with >= 1 spawned core")
